@@ -407,6 +407,7 @@ def make_numpy(it):
         "hstack": nat(hstack, name="hstack"), "concatenate": nat(hstack, name="concatenate"),
         "vstack": nat(lambda it, xs, **k: Rows([_arr(x) for x in it.iterate(xs)]), name="vstack"),
         "errstate": nat(errstate, name="errstate"),
+        "finfo": nat(lambda it, t=float, **k: __import__("numpy").finfo(float), name="finfo"),
         "copy": nat(lambda it, x: it.call(it.stub_modules["copy"].get("copy"), [x], {}), name="copy"),
         "nan": float("nan"), "inf": float("inf"), "pi": pi(), "newaxis": None, "e": math.e,
         "int64": TypeTag("int64", int), "float64": TypeTag("float64", float), "bool_": TypeTag("bool_", bool),
@@ -1148,6 +1149,19 @@ def cols_attr(it, c, name):
         return nat(lambda it: c)
     if name == "T":
         return c
+    if name == "sum":
+        def _sum(it, axis=None, **k):
+            from .sigma import sigma
+            if axis == 0:
+                return SmallVec([sigma(it, _arr(x)) for x in c.cols])        # column totals
+            if axis is None:
+                tot = None
+                for x in c.cols:
+                    sx = sigma(it, _arr(x))
+                    tot = sx if tot is None else it.binop("+", tot, sx)
+                return tot
+            raise EngineError("row sums of a 2-D array")
+        return nat(_sum)
     raise EngineError(f"2-D array attribute .{name}")
 
 
